@@ -76,6 +76,15 @@ def generate(rng, tier):
         else:
             ops.append(scen.gen_advance(rng))
     ops.append(explore.gen_create(rng, state, dict(WEIGHTS, sf=0.3)))
+    if rng.random() < 0.1:
+        # a nested history is lost (its ascmhl folder is deleted, the folder and its files stay) after the outer history
+        # referenced it: the next outer create still seals everything (the orphaned files now belong to the enclosing
+        # history) and reports the loss with code 30; the run after that is clean again
+        n = rng.choice(state["nested"])
+        fm = gen.fmt_args(gen.pick_formats(rng, 1, 2))
+        ops += [scen.cmd("create", "@R/" + n, *fm), scen.cmd("create", "@R", *fm), scen.gen_advance(rng),
+                {"op": "rmtree", "path": n + "/ascmhl", "fault": "nested_history_lost"},
+                scen.cmd("create", "@R", *fm, *(["-n"] if rng.random() < 0.2 else [])), scen.gen_advance(rng), scen.cmd("create", "@R", *fm)]
     return {"world": env, "ops": ops}
 
 
